@@ -6100,3 +6100,60 @@ func rulePointerScriptMatch(c *Ctx) {
 		c.Fail("pointer-script-match", c.P.Pos(fd.Decl.Pos()), "CALLA accepts a pointer on the strength of its script hash alone: for a deployed contract that is the contract hash, which survives an update, so a pointer taken from the old script is followed into the new one at its old offset - an offset that need not be an instruction boundary there")
 	}
 }
+
+// canonicalNodeBytes (sync-guards, C20): the pool of missing MPT nodes is keyed by node hashes, and a node's hash is
+// the hash of its *canonical* encoding - children referenced by hash. The decoder also accepts children serialised
+// inline; such a node has the expected hash, is taken from the pool and restored, but its inline children are not
+// hash nodes: they are never requested, never stored, their storage items never written, and the module reports the
+// MPT as synchronised with items missing. AddMPTNodes has to compare the received bytes with the re-encoded node
+// (Bytes()) before it hands the node to restoreNode.
+func canonicalNodeBytes(c *Ctx) {
+	fd := c.P.Func("pkg/core/statesync", "Module", "AddMPTNodes")
+	if fd == nil {
+		c.Lost("canonical-node-bytes.anchor", "statesync.Module.AddMPTNodes not found")
+		return
+	}
+	f := c.P.NewFuncCFG(fd)
+	restores := f.CallSites("pkg/core/statesync.(*Module).restoreNode")
+	if len(restores) == 0 {
+		c.Lost("canonical-node-bytes.restore", "AddMPTNodes no longer calls restoreNode")
+		return
+	}
+	// a rejecting if whose condition compares (bytes.Equal / bytes.HasPrefix) something with a call of Node.Bytes()
+	var checks []site
+	for _, b := range f.G.Blocks {
+		if !b.Live {
+			continue
+		}
+		cond := f.Cond(b)
+		if cond == nil {
+			continue
+		}
+		hit := false
+		ast.Inspect(cond, func(x ast.Node) bool {
+			if call, ok := x.(*ast.CallExpr); ok {
+				cs := f.calleeSym(call)
+				if cs == "bytes.Equal" || cs == "bytes.HasPrefix" {
+					for _, a := range call.Args {
+						if mentionsSuffix(f.DirectMentions(a), ".Bytes") {
+							hit = true
+						}
+					}
+				}
+			}
+			return true
+		})
+		if hit && len(b.Nodes) > 0 {
+			checks = append(checks, site{blk: b, idx: len(b.Nodes) - 1, node: b.Nodes[len(b.Nodes)-1]})
+		}
+	}
+	if len(checks) == 0 {
+		c.Fail("canonical-node-bytes", c.P.Pos(restores[0].call.Pos()), "AddMPTNodes hands a decoded node to restoreNode without comparing the received bytes with the node's canonical encoding: a node whose children are serialised inline has the hash the pool expects, but its children are never requested or stored - the MPT is reported synchronised with contract storage items missing")
+		return
+	}
+	if ok, path := f.mustBefore(f.Entry(), restores, checks, nil); ok {
+		c.OK("canonical-node-bytes", c.P.Pos(checks[0].node.Pos()), "received node bytes are compared with the canonical encoding before the node is restored")
+	} else {
+		c.Fail("canonical-node-bytes", c.P.Pos(restores[0].call.Pos()), "a path of AddMPTNodes reaches restoreNode without the comparison of the received bytes with the node's canonical encoding", path...)
+	}
+}
